@@ -324,15 +324,15 @@ def fileChecksum (t : ChecksumType) (f : Bytes) : Nat :=
   | .Null => 0
   | .Modular => (Cksum.checksumLoop (Cksum.chunkBy [8192] (f.length + 1) 0 f)).toNat
 
-/-- `finalize_file`: copy the staging file to the destination name; `none` = any I/O error -/
-def finalizeFile (s : State) : Option State :=
+/-- `finalize_file`: copy the staging file to the destination name; false = any I/O error
+(state unchanged) -/
+def finalizeFile (s : State) : State × Bool :=
   match s.md with
-  | none => none
+  | none => (s, false)
   | some m =>
-    let f := s.tempFile.getD []
-    match s.fs.writeFile (Fs.relOf m.dstName) f with
-    | none => none
-    | some fs' => some { s with fs := fs', tempFile := none }
+    match s.fs.writeFile (Fs.relOf m.dstName) (s.tempFile.getD []) with
+    | none => (s, false)
+    | some fs' => ({ s with fs := fs', tempFile := none }, true)
 
 /-- the file part of `finalize_receive`: checksum verification and copy to the destination -/
 def finalizeFilePart (s : State) (now : Nat) : State × Bool :=
@@ -344,9 +344,10 @@ def finalizeFilePart (s : State) (now : Nat) : State × Bool :=
     let okck := fileChecksum ct (s.tempFile.getD []) == ck
     let f := if !okck then handleFault s .FileChecksumFailure now else (s, true)
     if !f.2 then (f.1, false)
-    else match finalizeFile f.1 with
-      | some s' => ({ s' with fileStatus := .Retained }, true)
-      | none => ({ f.1 with fileStatus := .FileStoreRejection }, true)
+    else
+      let w := finalizeFile f.1
+      if w.2 then ({ w.1 with fileStatus := .Retained }, true)
+      else ({ f.1 with fileStatus := .FileStoreRejection }, true)
   else ({ s with fileStatus := .Unreported }, true)
 
 /-- `finalize_receive`; returns false when a fault handler stopped the finalisation -/
@@ -382,94 +383,105 @@ inductive Res where
   | ok | unexpected
   deriving DecidableEq, Repr, Inhabited
 
-/-- `process_pdu` -/
-def processPdu (s : State) (p : Pdu) (now : Nat) : State × Res :=
-  let s := { s with timer := { s.timer with inactivity := s.timer.inactivity.reset now } }
+/-- the first statement of `process_pdu` -/
+def pduArrived (s : State) (now : Nat) : State :=
+  { s with timer := { s.timer with inactivity := s.timer.inactivity.reset now } }
+
+/-- immediate-NAK bookkeeping after a file data PDU (acknowledged mode, before EOF) -/
+def immediateNak (s : State) (prevEnd off : Nat) (now : Nat) : State :=
+  if s.cfg.immediate && !eofReceived s then
+    let r := s.timer.nak.timeoutOccurred now
+    let s := { s with timer := { s.timer with nak := r.1 } }
+    if r.2 then
+      let s := { s with naks := getAllNaks s }
+      { s with timer := { s.timer with nak := s.timer.nak.restart now } }
+    else if off > prevEnd then
+      if s.cfg.delay == 0 then { s with naks := s.naks ++ [(prevEnd, off)] }
+      else { s with delayed := s.delayed ++ [((Counter.new s.cfg.delay 1 now).unpause, prevEnd, off)] }
+    else s
+  else s
+
+/-- acknowledged mode: file data -/
+def ackFileData (s : State) (off : Nat) (d : Bytes) (now : Nat) : State :=
+  let prevEnd := (Seg.endOf s.segs).getD 0
+  let s := storeFileData s off d
+  let s := emit s (.fileSegmentRecv off d.length)
+  checkFinished (immediateNak s prevEnd off now) now
+
+/-- after a NoError EOF in acknowledged mode: ask for what is missing (now or after the delay) -/
+def scheduleNaks (s : State) (fileSize : Nat) (now : Nat) : State :=
+  if hasNaks s then
+    if s.cfg.delay == 0 then { s with naks := getAllNaks s }
+    else { s with delayed := s.delayed ++ [((Counter.new s.cfg.delay 1 now).unpause, 0, fileSize)] }
+  else s
+
+/-- acknowledged mode: EOF -/
+def ackEof (s : State) (e : Eof) (now : Nat) : State :=
+  let s := { s with condition := e.cond }
+  let s := prepareAckEof s
+  let s := { s with checksum := some e.checksum }
+  let s := emit s .eofRecv
+  if s.condition == .NoError then
+    let s := checkFileSize s e.fileSize now
+    let s := { s with fileSize := some e.fileSize }
+    scheduleNaks (checkFinished s now) e.fileSize now
+  else cancelInner s now
+
+/-- both modes: Metadata (only the first one counts) -/
+def storeMetadata (s : State) (m : Metadata) : State :=
+  let s := emit s (.metadataRecv m.srcName m.dstName m.fileSize (nMsgs m))
+  { s with md := some (metaOf m) }
+
+/-- unacknowledged mode: EOF -/
+def unackEof (s : State) (e : Eof) (now : Nat) : State :=
+  let s := { s with condition := e.cond, checksum := some e.checksum }
+  let s := emit s .eofRecv
+  if s.recvState != .ReceiveData then setFinishedFlag s true
+  else if s.condition == .NoError then
+    let s := checkFileSize s e.fileSize now
+    let s := { s with fileSize := some e.fileSize }
+    let f :=
+      if s.md.isNone || (isFileTransfer s && hasNaks s) then handleFault s .CheckLimitReached now
+      else (s, true)
+    if !f.2 then f.1 else
+    let g := finalizeReceive f.1 now
+    if !g.2 then g.1 else
+    let s := g.1
+    if closureRequested s then
+      prepareFinished { s with recvState := .Finished } (if s.condition == .NoError then none else some s.cfg.dst)
+    else shutdown s now
+  else cancelInner s now
+
+/-- the rest of `process_pdu` -/
+def processPduBody (s : State) (p : Pdu) (now : Nat) : State × Res :=
   match s.cfg.mode with
   | .Acknowledged =>
     match p.payload with
-    | .fileData off d | .fileDataSeg _ _ off d =>
-      let prevEnd := (Seg.endOf s.segs).getD 0
-      let s := storeFileData s off d
-      let s := emit s (.fileSegmentRecv off d.length)
-      let s :=
-        if s.cfg.immediate && !eofReceived s then
-          let r := s.timer.nak.timeoutOccurred now
-          let s := { s with timer := { s.timer with nak := r.1 } }
-          if r.2 then
-            let s := { s with naks := getAllNaks s }
-            { s with timer := { s.timer with nak := s.timer.nak.restart now } }
-          else if off > prevEnd then
-            if s.cfg.delay == 0 then { s with naks := s.naks ++ [(prevEnd, off)] }
-            else { s with delayed := s.delayed ++ [((Counter.new s.cfg.delay 1 now).unpause, prevEnd, off)] }
-          else s
-        else s
-      (checkFinished s now, .ok)
-    | .eof e =>
-      let s := { s with condition := e.cond }
-      let s := prepareAckEof s
-      let s := { s with checksum := some e.checksum }
-      let s := emit s .eofRecv
-      if s.condition == .NoError then
-        let s := checkFileSize s e.fileSize now
-        let s := { s with fileSize := some e.fileSize }
-        let s := checkFinished s now
-        let s :=
-          if hasNaks s then
-            if s.cfg.delay == 0 then { s with naks := getAllNaks s }
-            else { s with delayed := s.delayed ++ [((Counter.new s.cfg.delay 1 now).unpause, 0, e.fileSize)] }
-          else s
-        (s, .ok)
-      else (cancelInner s now, .ok)
+    | .fileData off d | .fileDataSeg _ _ off d => (ackFileData s off d now, .ok)
+    | .eof e => (ackEof s e now, .ok)
     | .finished _ => (s, .unexpected)
     | .ack a =>
       if (s.recvState == .Finished || s.recvState == .Cancelled) && a.directive == .Finished && a.sub == .Finished then
-        let s := { s with timer := { s.timer with ack := s.timer.ack.pause now } }
-        (shutdown s now, .ok)
+        (shutdown { s with timer := { s.timer with ack := s.timer.ack.pause now } } now, .ok)
       else (s, .unexpected)
-    | .metadata m =>
-      if s.md.isNone then
-        let s := emit s (.metadataRecv m.srcName m.dstName m.fileSize (nMsgs m))
-        let s := { s with md := some (metaOf m) }
-        (checkFinished s now, .ok)
-      else (s, .ok)
+    | .metadata m => if s.md.isNone then (checkFinished (storeMetadata s m) now, .ok) else (s, .ok)
     | .nak _ => (s, .unexpected)
     | .prompt k => ({ s with prompt := some k }, .ok)
     | .keepAlive _ => (s, .unexpected)
   | .Unacknowledged =>
     match p.payload with
     | .fileData off d | .fileDataSeg _ _ off d =>
-      let s := storeFileData s off d
-      (emit s (.fileSegmentRecv off d.length), .ok)
+      (emit (storeFileData s off d) (.fileSegmentRecv off d.length), .ok)
     | .ack a =>
       if a.directive == .Finished && a.sub == .Finished && a.cond == .NoError && closureRequested s then
         (shutdown s now, .ok)
       else (s, .unexpected)
-    | .eof e =>
-      let s := { s with condition := e.cond, checksum := some e.checksum }
-      let s := emit s .eofRecv
-      if s.recvState != .ReceiveData then (setFinishedFlag s true, .ok)
-      else if s.condition == .NoError then
-        let s := checkFileSize s e.fileSize now
-        let s := { s with fileSize := some e.fileSize }
-        let f :=
-          if s.md.isNone || (isFileTransfer s && hasNaks s) then handleFault s .CheckLimitReached now
-          else (s, true)
-        if !f.2 then (f.1, .ok) else
-        let g := finalizeReceive f.1 now
-        if !g.2 then (g.1, .ok) else
-        let s := g.1
-        if closureRequested s then
-          let s := { s with recvState := .Finished }
-          (prepareFinished s (if s.condition == .NoError then none else some s.cfg.dst), .ok)
-        else (shutdown s now, .ok)
-      else (cancelInner s now, .ok)
-    | .metadata m =>
-      if s.md.isNone then
-        let s := emit s (.metadataRecv m.srcName m.dstName m.fileSize (nMsgs m))
-        ({ s with md := some (metaOf m) }, .ok)
-      else (s, .ok)
+    | .eof e => (unackEof s e now, .ok)
+    | .metadata m => if s.md.isNone then (storeMetadata s m, .ok) else (s, .ok)
     | .finished _ | .keepAlive _ | .prompt _ | .nak _ => (s, .unexpected)
+
+/-- `process_pdu` -/
+def processPdu (s : State) (p : Pdu) (now : Nat) : State × Res := processPduBody (pduArrived s now) p now
 
 /-- the leading loop of `handle_timeout`: how many delayed-NAK timers (in order) have expired -/
 def expiredPrefix (now : Nat) : List (Counter × Nat × Nat) → List (Counter × Nat × Nat) × Nat
